@@ -305,6 +305,23 @@ class Gen:
         self.commit(oid)
         self.observe_staged(oid)
 
+    def twin_create(self):
+        """both clients create the same new object in their own staging areas; the first commit wins, the second
+        must be refused (also without a storage layout, where the two would be stored under different roots)"""
+        sc, rng = self.sc, self.rng
+        oid = "twin%d" % len(sc.steps)
+        self.ids.append(oid)
+        self.objs[oid] = dict(alg="sha512", cdir="content")
+        for k in (0, 1):
+            sc.add("client", "client %d" % k, kind="skipd")
+            sc.add("new", "new %s sha512 %s 0 -" % (hx(oid), hx("content")), kind="mut", id=oid, cdir="content")
+            sc.add("cpx", "cpx %s 0 %s %s" % (hx(oid), hx("/"), hx(rng.choice(EXT_FILES))), kind="mut", id=oid)
+        for k in (0, 1):
+            sc.add("client", "client %d" % k, kind="skipd")
+            self.commit(oid, root=("objects/%s-%d" % (oid, k)) if self.layout[0] == "none" else None)
+        sc.add("resetall", "resetall %s" % hx(oid), kind="mut", id=oid)
+        self.observe_staged(oid)
+
     def diverge(self, oid):
         """one client stages on the current head; the other purges the object, creates it again and commits
         fewer, as many or more versions; then the first client commits its now baseless staged version"""
@@ -348,6 +365,9 @@ class Gen:
         oid = rng.choice(self.ids)
         if self.two_clients and rng.random() < 0.12:
             self.diverge(oid)
+            return
+        if self.two_clients and rng.random() < 0.08:
+            self.twin_create()
             return
         r0 = rng.random()
         if r0 < (0.10 if self.observe_history else 0.05):
